@@ -112,6 +112,61 @@ func (s *SearchSource) Choose(n int, tag string) int {
 	return 1 + s.R.Intn(n-1)
 }
 
+// ---- PCT: priority-based schedule search (Burckhardt et al., ASPLOS 2010) ----
+//
+// Every task gets a random priority when the scheduler first offers it; the ready task with the
+// highest priority always runs; at d-1 decision indices drawn uniformly from [0, Horizon) the task that
+// would run is demoted below everybody else. A defect that needs d ordering constraints is hit with
+// probability >= 1/(n * Horizon^(d-1)) per run, whatever the rest of the schedule looks like. All other
+// choices (quanta, map orders, select, workload) come from an ordinary random walk. What the scheduler
+// records is the index it was given back, so a PCT run replays from its choice vector like any other.
+
+// SchedSource is implemented by sources that want to see which tasks are ready.
+type SchedSource interface {
+	ChooseSched(readyIDs []int, decision int) int
+}
+
+type PCTSource struct {
+	*SearchSource
+	Depth   int
+	Horizon int
+	prio    map[int]float64
+	change  map[int]int // decision index -> demotion rank
+	init    bool
+}
+
+func NewPCT(seed uint64, depth, horizon int, other Strategy) *PCTSource {
+	return &PCTSource{SearchSource: NewSearch(seed, other), Depth: depth, Horizon: horizon, prio: map[int]float64{}, change: map[int]int{}}
+}
+
+func (p *PCTSource) ChooseSched(ready []int, decision int) int {
+	if !p.init {
+		p.init = true
+		for j := 1; j < p.Depth; j++ {
+			p.change[p.R.Intn(p.Horizon)] = j
+		}
+	}
+	best := 0
+	for i, id := range ready {
+		if _, ok := p.prio[id]; !ok {
+			p.prio[id] = 1 + p.R.Float() // above every demoted task
+		}
+		if p.prio[id] > p.prio[ready[best]] {
+			best = i
+		}
+	}
+	if j, ok := p.change[decision]; ok {
+		p.prio[ready[best]] = float64(j) / float64(p.Depth+1) // below all initial priorities, ordered among demoted ones
+		best = 0
+		for i, id := range ready {
+			if p.prio[id] > p.prio[ready[best]] {
+				best = i
+			}
+		}
+	}
+	return best
+}
+
 // ---- replay source: recorded vector; exhausted or out of range => default ----
 
 type ReplaySource struct {
